@@ -302,4 +302,167 @@ def featuresHolds (g : Geom) (b : Bounds) (fs : List (String × Rat)) : Bool :=
   decide (fs.map (·.1) = expectedNames g) &&
   fs.all (fun nv => decide (ofBounds nv.1 b (parts g) = some nv.2))
 
+
+/-! ### second-engineer additions (review of C05)
+
+  1. the shapely constructor calls `conversion.py` makes (`toCall`), separated from what shapely
+     builds from them (`ShCall.realize`, trusted and compared differentially): the functions
+     `*_to_shapely` are straight-line and are tied to `toCall` symbolically for all inputs;
+  2. GEOS's centroid algorithm (`geos::algorithm::Centroid`) over `Rat`, the segment length
+     (a square root) being a parameter `len`;
+  3. the full `get_geometry_point` with the centroid modelled (`getPoint`);
+  4. the dispatch of `compute_geometric_features` / `geometry_to_shapely` on the type tag. -/
+
+/-- a call of a shapely constructor as made by one of the `*_to_shapely` functions -/
+inductive ShCall
+  | box (x0 y0 x1 y1 : Rat)                 -- shapely.geometry.box(minx, miny, maxx, maxy)
+  | point (p : Pt)                          -- Point(coordinates)
+  | lineString (pts : List Pt)              -- LineString(coordinates) / shapely.linestrings(coordinates)
+  | polygon (shell : List Pt) (holes : List (List Pt))      -- Polygon(shell, holes)
+  | multiPoint (pts : List Pt)
+  | multiLineString (lines : List (List Pt))
+  | multiPolygon (polys : List (List Pt × List (List Pt)))   -- MultiPolygon([Polygon(shell, holes), …])
+  deriving DecidableEq, Repr, Inhabited
+
+/-- the constructor call each `*_to_shapely` makes (`coordinates[0]`, `coordinates[1:]` for rings) -/
+def toCall : Geom → ShCall
+  | .timeStamp t => .lineString [(t, 0), (t, MAXF)]
+  | .timeInterval s e => .box s 0 e MAXF
+  | .point t f => .point (t, f)
+  | .lineString pts => .lineString pts
+  | .polygon rings => .polygon (rings.headD []) rings.tail
+  | .boundingBox s l e h => .box s l e h
+  | .multiPoint pts => .multiPoint pts
+  | .multiLineString ls => .multiLineString ls
+  | .multiPolygon ps => .multiPolygon (ps.map fun rings => (rings.headD [], rings.tail))
+
+/-- what shapely builds from the call (rings become closed `LinearRing`s, `box` is the ccw ring
+    starting at (maxx, miny)) -/
+def ShCall.realize : ShCall → Shape
+  | .box x0 y0 x1 y1 => .polygon (boxRing x0 y0 x1 y1) []
+  | .point p => .point p
+  | .lineString pts => .lineString pts
+  | .polygon shell holes => .polygon (closeRing shell) (holes.map closeRing)
+  | .multiPoint pts => .multiPoint pts
+  | .multiLineString ls => .multiLineString ls
+  | .multiPolygon ps => .multiPolygon (ps.map fun p => (closeRing p.1, p.2.map closeRing))
+
+/-- `compute_geometric_features` / `geometry_to_shapely` look the type tag up; an unknown tag is
+    `NotImplementedError` -/
+def dispatch (tag : String) : Except Err Unit :=
+  if tag ∈ featureTypes then .ok () else .error .notImpl
+
+/-! #### GEOS centroid -/
+
+/-- consecutive vertex pairs -/
+def segs (pts : List Pt) : List (Pt × Pt) := pts.zip pts.tail
+
+/-- `Triangle::area2(a, p, q)`: twice the signed area -/
+def tri2 (a p q : Pt) : Rat := (p.1 - a.1) * (q.2 - a.2) - (q.1 - a.1) * (p.2 - a.2)
+
+/-- a weighted point -/
+abbrev WPt := Rat × Pt
+
+def wsum (ts : List WPt) : Rat := (ts.map (·.1)).foldr (· + ·) 0
+def wsumX (ts : List WPt) : Rat := (ts.map fun t => t.1 * t.2.1).foldr (· + ·) 0
+def wsumY (ts : List WPt) : Rat := (ts.map fun t => t.1 * t.2.2).foldr (· + ·) 0
+
+/-- the weighted mean `Σ w·p / Σ w` -/
+def wmean (ts : List WPt) : Pt := (wsumX ts / wsum ts, wsumY ts / wsum ts)
+
+/-- the fan of a ring about its first vertex: (twice the signed area, centroid) of every triangle
+    (first vertex, pᵢ, pᵢ₊₁) -/
+def fanTerms (r : List Pt) : List WPt :=
+  match r with
+  | [] => []
+  | a :: _ => (segs r).map fun s => (tri2 a s.1 s.2, ((a.1 + s.1.1 + s.2.1) / 3, (a.2 + s.1.2 + s.2.2) / 3))
+
+/-- `Centroid::addShell` / `addHole`: the fan terms signed so that a shell counts positive and a
+    hole negative whatever the stored orientation (GEOS asks `Orientation::isCCW`; for a simple
+    ring that is the sign of the fan sum, which is what the model uses) -/
+def ringTerms (hole : Bool) (r : List Pt) : List WPt :=
+  let ts := fanTerms r
+  let pos := decide (0 ≤ wsum ts)
+  if pos = hole then ts.map fun t => (-t.1, t.2) else ts
+
+/-- `Centroid::addLineSegments`: (length, midpoint) of every segment -/
+def segTerms (len : Pt → Pt → Rat) (pts : List Pt) : List WPt :=
+  (segs pts).map fun s => (len s.1 s.2, ((s.1.1 + s.2.1) / 2, (s.1.2 + s.2.2) / 2))
+
+/-- a line of zero length counts as its first point -/
+def linePtTerms (len : Pt → Pt → Rat) (pts : List Pt) : List WPt :=
+  match pts with
+  | [] => []
+  | p :: _ => if wsum (segTerms len pts) = 0 then [(1, p)] else []
+
+def polyRings (p : List Pt × List (List Pt)) : List (Bool × List Pt) :=
+  (false, p.1) :: p.2.map fun h => (true, h)
+
+/-- the polygons of an areal shape -/
+def Shape.polys : Shape → List (List Pt × List (List Pt))
+  | .polygon shell holes => [(shell, holes)]
+  | .multiPolygon ps => ps
+  | _ => []
+
+/-- the lines of a shape: line strings and the rings of polygons -/
+def Shape.lines : Shape → List (List Pt)
+  | .lineString pts => [pts]
+  | .multiLineString ls => ls
+  | .polygon shell holes => shell :: holes
+  | .multiPolygon ps => (ps.map fun p => p.1 :: p.2).flatten
+  | _ => []
+
+def Shape.areaTerms (s : Shape) : List WPt :=
+  (s.polys.map fun p => ((polyRings p).map fun r => ringTerms r.1 r.2).flatten).flatten
+
+def Shape.lineTerms (len : Pt → Pt → Rat) (s : Shape) : List WPt :=
+  (s.lines.map (segTerms len)).flatten
+
+def Shape.ptTerms (len : Pt → Pt → Rat) : Shape → List WPt
+  | .point p => [(1, p)]
+  | .multiPoint pts => pts.map fun p => (1, p)
+  | s => (s.lines.map (linePtTerms len)).flatten
+
+/-- `Centroid::getCentroid`: the areal centroid if there is area, else the centroid of the lines
+    if there is length, else the mean of the points -/
+def Shape.centroid (len : Pt → Pt → Rat) (s : Shape) : Option Pt :=
+  if wsum s.areaTerms ≠ 0 then some (wmean s.areaTerms)
+  else if 0 < wsum (s.lineTerms len) then some (wmean (s.lineTerms len))
+  else if s.ptTerms len ≠ [] then some (wmean (s.ptTerms len))
+  else none
+
+/-- all fan triangles of the ring turn the same way (every convex ring, every ring star-shaped
+    about its first vertex) -/
+def fanSameSign (r : List Pt) : Bool :=
+  (fanTerms r).all (fun t => decide (0 ≤ t.1)) || (fanTerms r).all (fun t => decide (t.1 ≤ 0))
+
+/-- the class of shapes for which `centroid inside the bounds` is proved: no holes, every shell
+    fan-convex (boxes, intervals, triangles, convex polygons, all points and lines) -/
+def Shape.Tame (s : Shape) : Bool :=
+  s.polys.all fun p => p.2.isEmpty && fanSameSign p.1
+
+/-- the segment lengths are not negative, and zero on a degenerate segment (contract of the
+    parameter `len`, evaluated on every length the harness passes) -/
+def LenOK (len : Pt → Pt → Rat) : Prop := ∀ p q, 0 ≤ len p q
+
+/-- `get_geometry_point` in full: the centroid is GEOS's (modelled), `pos` stands for shapely's
+    `point_on_surface` (not modelled); a shape without centroid (no vertices) is an error -/
+def getPoint (len : Pt → Pt → Rat) (pos_ : Pt) (g : Geom) (name : String) : Except Err Pt :=
+  if name = "centroid" then
+    match (toShape g).centroid len with
+    | some c => .ok c
+    | none => .error .invalid
+  else match g.bounds with
+    | some b => pointAt (fun _ => pos_) name b
+    | none => .error .invalid
+
+/-- the point is one of the vertices the envelope ranges over (contract of `point_on_surface`
+    for shapes of dimension 0 and 1, where GEOS answers a vertex) -/
+def isVertex (g : Geom) (p : Pt) : Bool := g.boundPts.contains p
+
+/-- shapes of dimension 0 or 1 -/
+def lowDim : Geom → Bool
+  | .timeStamp _ | .point .. | .lineString _ | .multiPoint _ | .multiLineString _ => true
+  | _ => false
+
 end SE.Bnd
